@@ -142,3 +142,67 @@ Proof.
   destruct (negb (N.eqb (res_builtAt r) 0) && N.eqb (r_sig (rules k)) (res_sig r)); [|exact H1].
   eapply R_trans; [exact H1 | apply R_quiet; exact I].
 Qed.
+
+Lemma run_R : forall k stack r s, ~ In k stack -> outcome_R stack s (run rules env F order ens k stack r s).
+Proof.
+  intros k stack r s Hk. rewrite run_bind. eapply outcome_R_trans; [apply run_pre_R; exact Hk|].
+  apply bind2_R; [apply requests_R|]. intros s1 _.
+  apply bind2_R; [apply requests_R|]. intros s2 _.
+  apply bind1_R; [apply follows_R|]. intros s3 _.
+  apply bind2_R; [apply requests_R|]. intros s4 _.
+  eapply outcome_R_trans; [|apply follows_R].
+  eapply R_trans; [apply (R_quiet stack s4 (EAvail k)); exact I | apply R_complete; exact Hk].
+Qed.
+
+Lemma scan_R : forall k stack r ds s, ~ In k stack ->
+  outcome_R stack s (scan rules env F order ens k stack r ds s).
+Proof.
+  intros k stack r ds. induction ds as [|d t IH]; intros s Hk.
+  - cbn [scan outcome_R]. apply R_set_mem. exact Hk.
+  - rewrite scan_cons. apply bind1_R; [apply outcome_R_weaken with (k := k); apply Hens|].
+    intros s1 _.
+    destruct (negb (d_order d) && (res_builtAt r <? res_computedAt (get (st_mem s1) (d_key d)))).
+    + eapply outcome_R_trans; [|apply run_R; exact Hk].
+      apply R_need; [exact Hk|]. unfold InputRebuilt, Forced. intros H. discriminate H.
+    + apply IH. exact Hk.
+Qed.
+
+Lemma ensure_body_R : forall stack s k, outcome_R stack s (ensure_body rules env F order ens stack s k).
+Proof.
+  intros stack s k. unfold ensure_body.
+  destruct (existsb (N.eqb k) stack) eqn:Est; [cbn [outcome_R]; apply R_refl|].
+  pose proof (existsb_eqb_false _ _ Est) as Hk.
+  destruct (N.eqb (res_builtAt (get (st_mem s) k)) (st_epoch s)); [cbn [outcome_R]; apply R_refl|].
+  cbn [res_builtAt res_sig].
+  set (r := mkRes _ _ _ _ _).
+  pose proof (R_set_mem stack s k r Hk) as Hm.
+  destruct (N.eqb (res_builtAt (get (st_mem s) k)) 0).
+  { eapply outcome_R_trans; [|apply run_R; exact Hk]. eapply R_trans; [exact Hm|].
+    apply R_need; [exact Hk|]. unfold NeverBuilt, Forced. intros H. discriminate H. }
+  destruct (flagged (set_mem s k r) k) eqn:Efl.
+  { eapply outcome_R_trans; [|apply run_R; exact Hk]. eapply R_trans; [exact Hm|].
+    apply R_need; [exact Hk|]. intros _. exact Efl. }
+  destruct (negb (N.eqb (r_sig (rules k)) (res_sig (get (st_mem s) k)))).
+  { eapply outcome_R_trans; [|apply run_R; exact Hk]. eapply R_trans; [exact Hm|].
+    apply R_need; [exact Hk|]. unfold SignatureChanged, Forced. intros H. discriminate H. }
+  destruct (negb (valid rules env k r)).
+  { eapply outcome_R_trans; [|apply run_R; exact Hk]. eapply R_trans; [exact Hm|].
+    eapply R_trans; [apply (R_quiet stack (set_mem s k r) (EValid k false)); exact I|].
+    apply R_need; [exact Hk|]. unfold InvalidValue, Forced. intros H. discriminate H. }
+  eapply outcome_R_trans; [|apply scan_R; exact Hk]. eapply R_trans; [exact Hm|]. apply R_quiet. exact I.
+Qed.
+
+End Step.
+
+Theorem ensure_R : forall fuel st s k, outcome_R st s (ensure rules env F order fuel st s k).
+Proof.
+  induction fuel as [|f IH]; intros st s k; cbn [ensure]; [exact I|]. apply ensure_body_R. exact IH.
+Qed.
+
+Theorem ensure_c_R : forall n base fuel st s k, outcome_R st s (ensure_c rules env F order n base fuel st s k).
+Proof.
+  intros n base. induction fuel as [|f IH]; intros st s k; cbn [ensure_c]; [exact I|].
+  destruct (budget_reached n base s); [cbn [outcome_R]; apply R_refl|]. apply ensure_body_R. exact IH.
+Qed.
+
+End Lift.
